@@ -537,10 +537,16 @@ def native_failures(n, seed, limit=3):
         lscale = {'m': 1.0, 'mm': 1e3}[lu]
         wl_val = np.array(lam_A * {'angstrom': 1.0, 'nm': 0.1}[wu], dtype=wdt)
         lam_m = float(wl_val) / {'angstrom': 1.0, 'nm': 0.1}[wu] * 1e-10        # the wavelength the function actually sees
+        # wavelength: one value, one per pixel, or along a dimension of its own (2-d result)
+        wshape = str(rng.choice(['scalar', 'per pixel', 'own dim'])) if npix else str(rng.choice(['scalar', 'own dim']))
+        if wshape == 'scalar':
+            wl = sc.scalar(wl_val, unit=wu, dtype=wdt)
+        else:
+            wl = sc.array(dims=['pixel' if wshape == 'per pixel' else 'wavelength'], values=np.full(3 if wshape == 'per pixel' else 2, wl_val, dtype=wdt), unit=wu)
         kw = dict(incident_beam=sc.vector(b1 * lscale, unit=lu),
                   scattered_beam=sc.vectors(dims=['pixel'], values=b2 * lscale, unit=lu) if npix else sc.vector(b2[0] * lscale, unit=lu),
-                  wavelength=sc.scalar(wl_val, unit=wu, dtype=wdt), gravity=sc.vector(g, unit='m/s^2'))
-        desc = {'id': f'case{i}', 'index': i, 'seed': seed, 'tilt_rad': tilt, 'g': gmag, 'wavelength': f'{float(wl_val)!r} {wu} {wdt}', 'length_unit': lu, 'pixels': npix}
+                  wavelength=wl, gravity=sc.vector(g, unit='m/s^2'))
+        desc = {'id': f'case{i}', 'index': i, 'seed': seed, 'tilt_rad': tilt, 'g': gmag, 'wavelength': f'{float(wl_val)!r} {wu} {wdt} ({wshape})', 'length_unit': lu, 'pixels': npix}
         orth = abs(np.dot(g, b1 * lscale)) <= 1e-10 * np.linalg.norm(g)
         tol = 2e-5 if wdt == 'float32' else 1e-9
         for fname in ('scattering_angles_with_gravity', 'scattering_angle_in_yz_plane'):
@@ -567,7 +573,11 @@ def native_failures(n, seed, limit=3):
                     got = {'two_theta': r['two_theta'], 'phi': r['phi']}
                     want = {'two_theta': tt, 'phi': phi}
                 for kx, var in got.items():
-                    val = float(var.values[k] if var.ndim else var.value)
+                    if var.ndim:
+                        vv = var.transpose([d for d in ('pixel', 'wavelength') if d in var.dims]) if var.ndim > 1 else var
+                        val = float(np.atleast_1d(vv.values[k] if 'pixel' in vv.dims else vv.values).ravel()[0])
+                    else:
+                        val = float(var.value)
                     err = abs(mp.mpf(val) - want[kx])
                     if kx == 'phi':
                         err = min(err, abs(err - 2 * mp.pi))
